@@ -33,10 +33,10 @@ Theorem Search_binary_smallest_class : Search_binary_stmt.
 Proof. exact Search_binary_proof. Qed.
 Print Assumptions Search_binary_smallest_class.
 
-(* full statement: ProofsFrame.Frame_full_stmt (push_back and copy included) *)
-Theorem Frame_others_unchanged_partial : Frame_stmt.
-Proof. exact Frame_proof. Qed.
-Print Assumptions Frame_others_unchanged_partial.
+(* every operation other than write(k,v) leaves the contents seen through every other handle unchanged *)
+Theorem Frame_others_unchanged : Frame_full_stmt.
+Proof. exact Frame_full_proof. Qed.
+Print Assumptions Frame_others_unchanged.
 
 (* GivMMFreeList: allocate / desallocate (of a handed-out block) / resize keep the free-list discipline PInv *)
 Theorem Pool_discipline_step : Pool_step_stmt.
